@@ -143,7 +143,15 @@ def report(ctx, items, what):
                             else "the implementation does not accept a scenario the model accepts"),
             "render": it.render, "scenario": it.scenario, "document": it.doc,
         })
+    # every document was also validated on an instance that the worker reuses for all its documents
+    reused = [it for it in items if it.res.get("reused")]
+    for it in reused[:2]:
+        ctx.violation({"what": "the result of validating a document depends on what the same SchemaValidator instance validated before",
+                       "kind": it.kind, "mutator": it.mutator, "fault": it.desc, "difference": {k: v for k, v in it.res["reused"].items() if k != "previous_document"},
+                       "history": [it.res["reused"].get("previous_document", "(longer history of this worker; not reproduced by the previous document alone)"), it.doc],
+                       "render": it.render, "document": it.doc}, no_input="previous_document" not in it.res["reused"])
     cov = ctx.coverage
+    cov["reused_instance_divergences"] = cov.get("reused_instance_divergences", 0) + len(reused)
     cov["evaluations"] = cov.get("evaluations", 0) + len(items)
     groups = set(it.group for it in items)
     cov["distinct_nontrivial"] = cov.get("distinct_nontrivial", 0) + len(groups)
@@ -158,6 +166,27 @@ def report(ctx, items, what):
     if unevaluated:
         ctx.notes.append("%d items could not be evaluated in Coq" % len(unevaluated))
     return dis, unevaluated
+
+
+def import_family(ctx, rng, n_valid, n_mut=0, only=None, what="T3 correspondence: whole validator with generated import files vs Coq model (Model/Imports.v)"):
+    """Importing scenarios (references, comparisons and connections across generated import files) and, optionally,
+    single import faults: run, compared with Model/Imports.v and reported under the calling property."""
+    import random
+    import imports as I
+    items = []
+    for k in range(n_valid + n_mut):
+        if k < n_valid:
+            case, name, desc = I.gen_valid_i(rng, threads=(k % 3 == 0)), None, None
+        else:
+            case, name, desc = I.mutate_i(rng, only=only)
+        r = {"spelling": "mixed", "shuffle": k % 2 == 1, "seed": rng.randrange(1 << 30)}
+        doc = I.render_i(case, ctx.repo_copy, random.Random(r["seed"]), r["spelling"], r["shuffle"], False)
+        items.append(Item(case, doc, "valid-imports" if name is None else "mutant-imports", mutator=name, owner=ctx.prop, desc=desc, render=r, group="imp%d" % k))
+    ok = run_items_grouped(ctx, items, coq_file_fn=I.coq_cases_file_i, chunk=8)
+    for it in items:
+        it.scenario = {"native": it.scenario["native"], "imports": [{kk: vv for kk, vv in imp.items() if kk != "builder"} for imp in it.scenario["imports"]]}
+    report(ctx, items, what)
+    return ok
 
 
 def sample_of(items, k=3):
